@@ -51,7 +51,7 @@ func ringDegScenario(rt ring.Type, logN int, ch rk.Chain, bound int) engine.Scen
 		c.Cover("op", "ApplyEvaluationKey/"+dirName)
 		c.Cover("ring", ringName(rt))
 		uni.Seed(c, name, cfg)
-		known := knownKS(pL, kp, level)
+		known := knownKS(pL, kp, level, isNTT)
 		if known != "" {
 			c.Skip(skipKnown)
 			return
@@ -162,7 +162,7 @@ func bridgeScenario(ch rk.Chain, bound int) engine.Scenario {
 		c.Note("%s", cfg)
 		c.Cover("op", "DomainSwitcher."+dirName)
 		uni.Seed(c, name, cfg)
-		known := knownKS(pStd.Parameters, kp, level)
+		known := knownKS(pStd.Parameters, kp, level, true)
 		if known != "" {
 			c.Skip(skipKnown)
 			return
